@@ -434,11 +434,15 @@ func (c *Ctx) checkPrefixTables(rd *ssa.Function) {
 	// loop bound K: ErrTooLong returned on  K <= i
 	K := int64(-1)
 	tooLong := p.Global("common/encapsulation", "ErrTooLong")
-	for _, r := range returnsOf(rd) {
-		addr, ok := loadAddr(r.Results[1])
-		if !ok || addr != ssa.Value(tooLong) {
-			continue
+	// every place where ErrTooLong is produced (returned directly, or handed to the return through a
+	// temporary) lies behind the bound test
+	var tlUses []ssa.Instruction
+	allInstrs(rd, func(in ssa.Instruction) {
+		if u, ok := in.(*ssa.UnOp); ok && u.Op == token.MUL && tooLong != nil && u.X == ssa.Value(tooLong) {
+			tlUses = append(tlUses, in)
 		}
+	})
+	for _, r := range tlUses {
 		// the edge on which K <= i holds, however the source spells it
 		// (i >= K, !(i < K), K <= i, i > K-1, ...)
 		isCtr := func(v ssa.Value) bool { _, isPhi := v.(*ssa.Phi); return isPhi }
@@ -510,6 +514,50 @@ func (c *Ctx) checkPrefixTables(rd *ssa.Function) {
 		}
 	})
 	shapeOK := false
+	// the value fed to make is the prefix accumulator, possibly merged with small constants on the
+	// way (a helper's error results): find the accumulator phi among the leaves
+	if lenVal != nil {
+		var acc *ssa.Phi
+		okLeaves := true
+		seenL := map[ssa.Value]bool{}
+		var leaves func(v ssa.Value)
+		leaves = func(v ssa.Value) {
+			if seenL[v] {
+				return
+			}
+			seenL[v] = true
+			if ph, ok := v.(*ssa.Phi); ok {
+				// the accumulator refers to itself through its update
+				self := false
+				for _, e := range ph.Edges {
+					if bo, okb := e.(*ssa.BinOp); okb && bo.Op == token.OR {
+						if shl, ok1 := bo.X.(*ssa.BinOp); ok1 && shl.Op == token.SHL && shl.X == ssa.Value(ph) {
+							self = true
+						}
+					}
+				}
+				if self {
+					if acc != nil && acc != ph {
+						okLeaves = false
+					}
+					acc = ph
+					return
+				}
+				for _, e := range ph.Edges {
+					leaves(e)
+				}
+				return
+			}
+			if k, ok := constInt(v); ok && k >= 0 && k < 1<<20 {
+				return
+			}
+			okLeaves = false
+		}
+		leaves(lenVal)
+		if okLeaves && acc != nil {
+			lenVal = acc
+		}
+	}
 	if ph, ok := lenVal.(*ssa.Phi); ok {
 		// edges: int(b0 & 0x3f)  and  (n << 7) | int(b & 0x7f)
 		first, upd := false, false
